@@ -262,8 +262,12 @@ def name_tuples(params, maxlen, include_posonly=False, dup=False):
     out = [()]
     for r in range(1, maxlen + 1):
         out.extend(itertools.permutations(cand, r))
-    if dup and cand:
-        out.append((cand[0], cand[0]))
+    if dup:
+        for c in cand:
+            out.append((c, c))
+            others = [x for x in cand if x != c]
+            if others:
+                out.append((c, others[0], c))
     return out
 
 
